@@ -66,6 +66,7 @@ def main(argv=None) -> int:
     ap.add_argument("--id", action="append")
     ap.add_argument("--all-props", action="store_true", help="run every claimed property, not only the targeted one")
     ap.add_argument("--benign", action="store_true", help="run the behaviour-preserving changes under /verif/benign (all properties): expected silent, or analysis-error where recorded")
+    ap.add_argument("--jobs", type=int, default=os.cpu_count() or 4)
     a = ap.parse_args(argv)
     base = BENIGN if a.benign else SEEDED
     if a.benign:
@@ -74,11 +75,20 @@ def main(argv=None) -> int:
     parent = tempfile.mkdtemp(prefix="verif-seeded-")
     bad = 0
     try:
-        for sid in ids:
-            r = run_one(sid, parent, a.all_props, base)
+        from concurrent.futures import ProcessPoolExecutor
+
+        jobs = min(a.jobs, len(ids)) or 1
+        if jobs > 1:
+            with ProcessPoolExecutor(max_workers=jobs) as ex:
+                results = list(ex.map(_job, [(sid, parent, a.all_props, base) for sid in ids]))
+        else:
+            results = [_job((sid, parent, a.all_props, base)) for sid in ids]
+        tally: dict = {}
+        for r in results:
             ok = r["status"] == r.get("expect", "caught") or (r["status"] == "missed" and r.get("expect") in ("missed-by-design", "silent"))
             if a.benign and r["status"] == "missed" and r.get("expect") == "analysis-error":
                 ok = True  # better than recorded
+            tally[r["status"]] = tally.get(r["status"], 0) + 1
             print(f"{r['id']:<10} {r.get('property', ''):<4} {r['status']:<15} expect={r.get('expect')} {'OK' if ok else '<<< MISMATCH'}")
             for f in r.get("fired", [])[:3]:
                 print("      ", f)
@@ -86,9 +96,18 @@ def main(argv=None) -> int:
                 print("      ", e)
             if not ok:
                 bad += 1
+        print("tally:", ", ".join(f"{k}={v}" for k, v in sorted(tally.items())), f"mismatches={bad}")
     finally:
         shutil.rmtree(parent, ignore_errors=True)
     return 1 if bad else 0
+
+
+def _job(args):
+    sid, parent, all_props, base = args
+    try:
+        return run_one(sid, parent, all_props, base)
+    except Exception as e:  # a crash of the engine on a patched tree is reported, not hidden
+        return {"id": sid, "status": "crash", "errors": [f"{type(e).__name__}: {e}"]}
 
 
 if __name__ == "__main__":
